@@ -125,6 +125,10 @@ def history_task(task, wdir, res):
     def store(n, every):
         nonlocal k
         set_clock(clock["ms"], every)
+        if life["rel"] is None:
+            # relation of this lifetime's first id to the newest millisecond any stored id was drawn from: a fresh generator has
+            # nothing to pin to, so a clock that is level with or behind the stored ids makes it fall back
+            life["rel"] = "clock_ahead_of_stored_ids" if clock["ms"] > clock["hw"] + 1 else "clock_at_or_behind_stored_ids"
         for _ in range(n):
             k += 1
             c = rng.choice(ctxs) if not big else ctxs[0]
@@ -228,8 +232,7 @@ def history_task(task, wdir, res):
                     node = lt.restart_clean()
                 life["n"] += 1
                 clock["ms"] = max(1_609_459_200_001, now + d)
-                # relation of the new lifetime's clock to the newest millisecond any stored id was drawn from
-                life["rel"] = "clock_ahead_of_stored_ids" if clock["ms"] > clock["hw"] + 1 else "clock_at_or_behind_stored_ids"
+                life["rel"] = None        # decided at the lifetime's first id (the clock may still be moved before it)
                 set_clock(clock["ms"], 3)
                 observe(f"restart:{step}", "recovered" if crash else "restart")
         observe("final", "final")
